@@ -137,7 +137,11 @@ def _case(draw):
                 "member": draw(st.sampled_from(["box.mbox", "md", "run.sh", "m.pyg", "sub/box.mbox", "box.mbox|/MBOX-MESSAGE/1",
                                                 "md|/MAILDIR-MESSAGE/1", "run.sh?arg", "m.pyg?x"])),
                 "cwd": draw(st.sampled_from(["cwdA", "cwdB"]))}
-    return {"mode": "twin", "tree": draw(_tree()), "forms": draw(st.lists(st.sampled_from(FORMS), min_size=2, max_size=3, unique=True))}
+    c = {"mode": "twin", "tree": draw(_tree()), "forms": draw(st.lists(st.sampled_from(FORMS), min_size=2, max_size=3, unique=True))}
+    if draw(st.integers(0, 3)) == 0:
+        # the archive is then replaced by another revision that keeps its modification time (cp -p, rsync -t, a restore)
+        c["tree2"] = draw(_tree())
+    return c
 
 
 def strategy(tier):
@@ -216,62 +220,75 @@ def _norm(resp, zipside):
 
 
 def _check_twin(case, ctx):
-    tree = case["tree"]
+    import shutil
     base = world.fresh_dir("c16")
     root = os.path.join(base, "root")
     os.mkdir(root)
     try:
-        _build_twins(tree, root)
         cfg = drive.make_config(root, "full", **{"handlers.dir.DirHandler::cachetime": "0"})
-        # (metadata files that name absolute selectors differ in length between the twins by construction)
-        sels = [""] + _zip_dirs(tree) + sorted(tree["files"]) + sorted(tree["links"]) + \
-            sorted(m for m, c in tree["meta"].items() if "@PREFIX@" not in c)
-        sels += [s + "/nope" for s in ([""] + tree["dirs"])[:2]] + [s + "/x" for s in sorted(tree["links"])[:2]]
-        # selectors that continue below a regular member, with and without virtual arguments
-        for f in sorted(tree["files"])[:2]:
-            sels += [f + "/x", f + "/x|foo", f + "/y?z", f + "|/MBOX-MESSAGE/1"]
-        nt = bool(tree["links"]) or bool(tree["meta"]) or any(not p.isascii() for p in tree["files"]) or \
-            any(d.count("/") >= 1 for d in tree["dirs"])
-        if nt:
-            ctx.nontriv()
-        ctx.label("twin", "links:%d" % len(tree["links"]), "meta:%d" % len(tree["meta"]), "explicit-dirs:" + tree["explicit_dirs"],
-                  "utf8flag:%s" % tree["utf8"])
-        for st_ in {v[1] for v in tree["links"].values()}:
-            ctx.label("link:" + st_)
-        ctx.sample(cls="twin%d%d" % (min(len(tree["links"]), 1), min(len(tree["meta"]), 1)))
-        fails = []
-        for form in case["forms"]:
-            tls, fam = clients.FORMS[form]
-            for s in sels:
-                if fam in ("gopher", "gdollar", "gplus") and re.search(r"[\t\r\n]", s):
-                    continue
-                ra = drive.serve(cfg, clients.encode(form, world.b("/Tarch.zip" + ("/" + s if s else ""))), tls=tls, realfd=True)
-                rb = drive.serve(cfg, clients.encode(form, world.b("/Tarch" + ("/" + s if s else ""))), tls=tls, realfd=True)
-                ctx.count("request_pairs")
-                a, b_ = _norm(ra.response, True), _norm(rb.response, False)
-                if ra.escaped is not None or [c for c in ra.exception_classes() if c != "FileNotFound"]:
-                    fails.append(Fail("zip-internal-error:%s" % (ra.handled_signatures() or ["escaped"])[-1],
-                                      "%s /Tarch.zip/%s: %r" % (form, s, ra.logs[-1:])))
-                    continue
-                if a != b_:
-                    what = _what(s, tree)
-                    pa, pb = clients.parse_response(form, ra.response), clients.parse_response(form, rb.response)
-                    kind = "found-vs-notfound" if pa.ok != pb.ok else ("listing" if pb.kind in ("menu", "info") or fam in ("gdollar",) else "document")
-                    fails.append(Fail("twin-differs:%s:%s" % (what, kind),
-                                      "%s: /Tarch.zip/%s and /Tarch/%s differ (%s)" % (form, s, s, what),
-                                      {"zip": world.u(a[:500]), "disk": world.u(b_[:500])}))
-                    if len(fails) >= 3:
-                        break
-            if len(fails) >= 3:
-                break
-        seen, out = set(), []
-        for f in fails:
-            if f.sig not in seen:
-                seen.add(f.sig)
-                out.append(f)
+        _build_twins(case["tree"], root)
+        out = _compare(case["tree"], case, cfg, ctx, "")
+        if not out and case.get("tree2"):
+            # second revision under the same name and with the same mtime; whatever index cache the server keeps stays
+            shutil.rmtree(os.path.join(root, "Tarch"))
+            os.unlink(os.path.join(root, "Tarch.zip"))
+            _build_twins(case["tree2"], root)
+            ctx.label("archive-replaced-keeping-mtime")
+            out = _compare(case["tree2"], case, cfg, ctx, "after-replacement:")
         return out
     finally:
         world.rmtree(base)
+
+
+def _compare(tree, case, cfg, ctx, pre):
+    # (metadata files that name absolute selectors differ in length between the twins by construction)
+    sels = [""] + _zip_dirs(tree) + sorted(tree["files"]) + sorted(tree["links"]) + \
+        sorted(m for m, c in tree["meta"].items() if "@PREFIX@" not in c)
+    sels += [s + "/nope" for s in ([""] + tree["dirs"])[:2]] + [s + "/x" for s in sorted(tree["links"])[:2]]
+    # selectors that continue below a regular member, with and without virtual arguments
+    for f in sorted(tree["files"])[:2]:
+        sels += [f + "/x", f + "/x|foo", f + "/y?z", f + "|/MBOX-MESSAGE/1"]
+    nt = bool(tree["links"]) or bool(tree["meta"]) or any(not p.isascii() for p in tree["files"]) or \
+        any(d.count("/") >= 1 for d in tree["dirs"])
+    if nt:
+        ctx.nontriv()
+    ctx.label("twin", "links:%d" % len(tree["links"]), "meta:%d" % len(tree["meta"]), "explicit-dirs:" + tree["explicit_dirs"],
+              "utf8flag:%s" % tree["utf8"])
+    for st_ in {v[1] for v in tree["links"].values()}:
+        ctx.label("link:" + st_)
+    ctx.sample(cls="twin%d%d" % (min(len(tree["links"]), 1), min(len(tree["meta"]), 1)))
+    fails = []
+    for form in case["forms"]:
+        tls, fam = clients.FORMS[form]
+        for s in sels:
+            if fam in ("gopher", "gdollar", "gplus") and re.search(r"[\t\r\n]", s):
+                continue
+            ra = drive.serve(cfg, clients.encode(form, world.b("/Tarch.zip" + ("/" + s if s else ""))), tls=tls, realfd=True)
+            rb = drive.serve(cfg, clients.encode(form, world.b("/Tarch" + ("/" + s if s else ""))), tls=tls, realfd=True)
+            ctx.count("request_pairs")
+            a, b_ = _norm(ra.response, True), _norm(rb.response, False)
+            if ra.escaped is not None or [c for c in ra.exception_classes() if c != "FileNotFound"]:
+                fails.append(Fail("zip-internal-error:%s" % (ra.handled_signatures() or ["escaped"])[-1],
+                                  "%s /Tarch.zip/%s: %r" % (form, s, ra.logs[-1:])))
+                continue
+            if a != b_:
+                what = _what(s, tree)
+                pa, pb = clients.parse_response(form, ra.response), clients.parse_response(form, rb.response)
+                kind = "found-vs-notfound" if pa.ok != pb.ok else ("listing" if pb.kind in ("menu", "info") or fam in ("gdollar",) else "document")
+                fails.append(Fail("twin-differs:%s:%s" % (what, kind),
+                                  "%s: /Tarch.zip/%s and /Tarch/%s differ (%s)" % (form, s, s, what),
+                                  {"zip": world.u(a[:500]), "disk": world.u(b_[:500])}))
+                if len(fails) >= 3:
+                    break
+        if len(fails) >= 3:
+            break
+    seen, out = set(), []
+    for f in fails:
+        if f.sig not in seen:
+            seen.add(f.sig)
+            f.sig = pre + f.sig
+            out.append(f)
+    return out
 
 
 def _what(s, tree):
